@@ -31,7 +31,7 @@ Lemma line_body_pure d n : 0 <= n < zlen d -> zlen d <= usize_max ->
      and_4 <- (if (0 <? n) then
                  dif_2 <- usub chk n 1 ;; el_3 <- index_chk d dif_2 ;; ret (el_3 =? 13)
                else ret false) ;;
-     ite_6 <- (if and_4 then dif_5 <- usub chk n 1 ;; ret dif_5 else ret n) ;;
+     ite_6 <- (if and_4 then usub chk n 1 else ret n) ;;
      let data_end_excl := ite_6 in
      sum_7 <- uadd chk n 1 ;;
      let block_len := sum_7 in
